@@ -441,3 +441,271 @@ Proof.
            ++ eapply post_weaken; [eapply (close_remove_temp_post fs0 target tmp out fm); eauto | exact Wk | auto].
         -- intros s w2 [-> [written Ht]]. split; auto. eapply WTemp; eauto.
 Qed.
+
+(* ---------- the whole command ---------- *)
+Definition final_mode (v : variant) (f0 : file) : N :=
+  match v with AsIs => mode0600 | Fixed => f_mode f0 end.
+
+Lemma write_atomically_post v out target tmp w f0 :
+  files (w_fs w) target = Some f0 ->
+  post (write_atomically v out target tmp) w
+       (fun b w' => wstate (w_fs w) target tmp out (final_mode v f0) (w_fs w') /\
+                    (b = true -> files (w_fs w') target = Some {| f_data := out; f_mode := final_mode v f0 |}))
+       (fun s w' => s = Killed /\ wstate (w_fs w) target tmp out (final_mode v f0) (w_fs w')).
+Proof.
+  destruct v; simpl; [apply write_atomically_asis_post | apply write_atomically_fixed_post].
+Qed.
+
+Section Formatter.
+  Variable fmt1 : bytes -> option bytes.
+  Variable parts : bytes -> list bytes.
+  Variable join : bytes -> list bytes -> bytes.
+  Notation fmtall := (fmt_all fmt1 parts join).
+  Notation checkok := (check_ok fmt1 parts).
+
+  Lemma check_ok_fmt_parts ps : forallb (part_ok fmt1) ps = true -> fmt_parts fmt1 ps = Some ps.
+  Proof.
+    induction ps as [|p t IH]; simpl; auto. intro H. apply andb_true_iff in H as [H1 H2].
+    unfold part_ok in H1. destruct (fmt1 p) as [o|] eqn:E; [|discriminate].
+    apply str_eqb_eq in H1. subst o. now rewrite IH.
+  Qed.
+
+  Lemma check_ok_parses src : checkok src = true -> fmtall src = Some (join src (parts src)).
+  Proof. unfold check_ok, fmt_all. intro H. now rewrite check_ok_fmt_parts. Qed.
+
+  (* outcome of fmt_file: b = Some true/false is the nil / non-nil error, None = killed *)
+  Definition fout (v : variant) (c : cmd) (target tmp : path) (w : world) (b : option bool) (w' : world) : Prop :=
+    (w_fs w' = w_fs w /\ read_ext target w w' /\
+     (b = Some true -> exists f0, files (w_fs w) target = Some f0 /\
+        match c with
+        | CmdCheck => checkok (f_data f0) = true
+        | CmdPlain => fmtall (f_data f0) <> None
+        | CmdWrite => False
+        end))
+    \/
+    (c = CmdWrite /\ exists f0 out, files (w_fs w) target = Some f0 /\ fmtall (f_data f0) = Some out /\
+       wstate (w_fs w) target tmp out (final_mode v f0) (w_fs w') /\
+       (b = Some true -> files (w_fs w') target = Some {| f_data := out; f_mode := final_mode v f0 |})).
+
+  Lemma fmt_file_post v c target tmp w :
+    post (fmt_file fmt1 parts join v c target tmp) w
+         (fun b w' => fout v c target tmp w (Some b) w')
+         (fun s w' => s = Killed /\ fout v c target tmp w None w').
+  Proof.
+    unfold fmt_file. apply post_bind. eapply post_weaken; [apply read_file_post | |].
+    - intros r w1 [H1 [H2 H3]]. destruct r as [src|].
+      + destruct (H3 src eq_refl) as [f0 [Hf0 ->]].
+        destruct c.
+        * destruct (fmtall (f_data f0)) as [out|] eqn:Ef.
+          -- eapply post_weaken; [apply (write_atomically_post v out target tmp w1 f0); now rewrite H1 | |].
+             ++ intros b w2 [Hw Hb]. right. split; auto. exists f0, out. rewrite H1 in *. repeat split; auto.
+                intro E. inversion E; subst. auto.
+             ++ intros s w2 [-> Hw]. split; auto. right. split; auto. exists f0, out. rewrite H1 in *.
+                repeat split; auto. discriminate.
+          -- apply post_ret. left. repeat split; auto. discriminate.
+        * apply post_ret. left. repeat split; auto. intro E. inversion E. exists f0. split; auto.
+        * apply post_ret. left. repeat split; auto. intro E. inversion E. exists f0. split; auto.
+          destruct (fmtall (f_data f0)); [discriminate | discriminate].
+      + apply post_ret. left. repeat split; auto. discriminate.
+    - intros s w1 [-> [H1 H2]]. split; auto. left. repeat split; auto. discriminate.
+  Qed.
+
+  Definition w0 (fs : fsys) (sched : list outcome) (kill : nat) : world :=
+    {| w_fs := fs; w_sched := sched; w_left := kill; w_trace := [] |}.
+
+  Definition status_of (b : option bool) : status :=
+    match b with Some true => Exit 0 | Some false => Exit 1 | None => Killed end.
+
+  Lemma run_post v c target tmp fs sched kill :
+    let r := run fmt1 parts join v c target tmp fs sched kill in
+    exists b w', r_status r = status_of b /\ r_fs r = w_fs w' /\ r_trace r = rev (w_trace w') /\
+                 fout v c target tmp (w0 fs sched kill) b w'.
+  Proof.
+    cbv zeta. unfold run. fold (w0 fs sched kill).
+    pose proof (fmt_file_post v c target tmp (w0 fs sched kill)) as H. unfold post in H.
+    destruct (fmt_file fmt1 parts join v c target tmp (w0 fs sched kill)) as [[|] w'|s w'].
+    - exists (Some true), w'. auto.
+    - exists (Some false), w'. auto.
+    - destruct H as [-> H]. exists None, w'. auto.
+  Qed.
+
+  Lemma status_of_exit0 b : status_of b = Exit 0 -> b = Some true.
+  Proof. destruct b as [[|]|]; simpl; intro H; try discriminate; auto. Qed.
+
+  Lemma status_of_fuel b : status_of b <> OutOfFuel.
+  Proof. destruct b as [[|]|]; simpl; discriminate. Qed.
+
+  (* T0: the run never depends on its fuel *)
+  Lemma run_no_fuel v c target tmp fs sched kill :
+    r_status (run fmt1 parts join v c target tmp fs sched kill) <> OutOfFuel.
+  Proof.
+    destruct (run_post v c target tmp fs sched kill) as [b [w' [Hs _]]]. rewrite Hs. apply status_of_fuel.
+  Qed.
+
+  (* T1: atomicity *)
+  Lemma fmt_w_atomic v target tmp fs sched kill :
+    let r := run fmt1 parts join v CmdWrite target tmp fs sched kill in
+    (files (r_fs r) target = files fs target \/
+     exists f0 out m, files fs target = Some f0 /\ fmtall (f_data f0) = Some out /\
+                      files (r_fs r) target = Some {| f_data := out; f_mode := m |}) /\
+    (r_status r = Exit 0 ->
+     exists f0 out m, files fs target = Some f0 /\ fmtall (f_data f0) = Some out /\
+                      files (r_fs r) target = Some {| f_data := out; f_mode := m |}).
+  Proof.
+    cbv zeta. destruct (run_post v CmdWrite target tmp fs sched kill) as [b [w' [Hs [Hfs [_ Ho]]]]].
+    rewrite Hs, Hfs. unfold fout, w0 in Ho; cbn [w_fs] in Ho. destruct Ho as [[H1 [_ H3]] | [_ [f0 [out [Hf0 [Hfmt [Hw Hb]]]]]]].
+    - split; [left; now rewrite H1|]. intro E. apply status_of_exit0 in E. destruct (H3 E) as [? [_ []]].
+    - split.
+      + destruct Hw as [[Hq _] | written m Hne H0 [Ht1 [Ht2 [Ht3 Ht4]]] | Hne H0 Ht Htmp Hq Hd].
+        * left. apply Hq.
+        * left. apply Ht3. auto.
+        * right. exists f0, out, (final_mode v f0). auto.
+      + intro E. apply status_of_exit0 in E. exists f0, out, (final_mode v f0). auto.
+  Qed.
+
+  (* T2: what else may differ afterwards: only the temp file, holding a prefix of the formatted text *)
+  Lemma fmt_w_leftover v target tmp fs sched kill q :
+    let r := run fmt1 parts join v CmdWrite target tmp fs sched kill in
+    q <> target ->
+    files (r_fs r) q = files fs q \/
+    (q = tmp /\ files fs tmp = None /\
+     exists f0 out f rest, files fs target = Some f0 /\ fmtall (f_data f0) = Some out /\
+                           files (r_fs r) tmp = Some f /\ out = f_data f ++ rest).
+  Proof.
+    cbv zeta. intro Hq. destruct (run_post v CmdWrite target tmp fs sched kill) as [b [w' [Hs [Hfs [_ Ho]]]]].
+    rewrite Hfs. unfold fout, w0 in Ho; cbn [w_fs] in Ho. destruct Ho as [[H1 _] | [_ [f0 [out [Hf0 [Hfmt [Hw Hb]]]]]]].
+    - left. now rewrite H1.
+    - destruct Hw as [[Hsame _] | written m Hne H0 [Ht1 [[rest Ht2] [Ht3 Ht4]]] | Hne H0 Ht Htmp Hoth Hd].
+      + left. apply Hsame.
+      + destruct (str_eq_dec q tmp) as [->|Hqt].
+        * right. split; auto. split; auto. exists f0, out, {| f_data := written; f_mode := m |}, rest. auto.
+        * left. apply Ht3. auto.
+      + destruct (str_eq_dec q tmp) as [->|Hqt].
+        * left. now rewrite Htmp, H0.
+        * left. apply Hoth; auto.
+  Qed.
+
+  (* T3: permission bits.  Whatever happens, the target's mode is its old mode
+     or the protocol's final mode — which is the old mode for the fixed protocol. *)
+  Lemma fmt_w_mode v target tmp fs sched kill f :
+    let r := run fmt1 parts join v CmdWrite target tmp fs sched kill in
+    files (r_fs r) target = Some f ->
+    exists f0, files fs target = Some f0 /\ (f_mode f = f_mode f0 \/ f_mode f = final_mode v f0).
+  Proof.
+    cbv zeta. destruct (run_post v CmdWrite target tmp fs sched kill) as [b [w' [Hs [Hfs [_ Ho]]]]].
+    rewrite Hfs. intro Hf. unfold fout, w0 in Ho; cbn [w_fs] in Ho.
+    destruct Ho as [[H1 _] | [_ [f0 [out [Hf0 [Hfmt [Hw Hb]]]]]]].
+    - rewrite H1 in Hf. exists f. auto.
+    - destruct Hw as [[Hsame _] | written m Hne H0 [Ht1 [Ht2 [Ht3 Ht4]]] | Hne H0 Ht Htmp Hoth Hd].
+      + rewrite Hsame in Hf. exists f. auto.
+      + rewrite Ht3 in Hf; auto. exists f. auto.
+      + rewrite Ht in Hf. inversion Hf; subst f. exists f0. split; auto.
+  Qed.
+
+  Lemma fmt_w_mode_preserved_fixed target tmp fs sched kill f :
+    files (r_fs (run fmt1 parts join Fixed CmdWrite target tmp fs sched kill)) target = Some f ->
+    exists f0, files fs target = Some f0 /\ f_mode f = f_mode f0.
+  Proof.
+    intro H. apply fmt_w_mode in H. destruct H as [f0 [H0 [H|H]]]; eauto.
+  Qed.
+
+  (* the tree's protocol preserves the mode exactly when it already was 0600 ... *)
+  Lemma fmt_w_mode_preserved_asis_guarded target tmp fs sched kill f f0 :
+    files fs target = Some f0 -> f_mode f0 = mode0600 ->
+    files (r_fs (run fmt1 parts join AsIs CmdWrite target tmp fs sched kill)) target = Some f ->
+    f_mode f = f_mode f0.
+  Proof.
+    intros H0 Hm H. apply fmt_w_mode in H. destruct H as [f0' [H0' [H|H]]]; rewrite H0 in H0'; inversion H0'; subst f0'; auto.
+    simpl in H. congruence.
+  Qed.
+
+  (* ... and every successful run of it leaves the mode 0600, whatever it was *)
+  Lemma fmt_w_asis_success_mode target tmp fs sched kill :
+    let r := run fmt1 parts join AsIs CmdWrite target tmp fs sched kill in
+    r_status r = Exit 0 -> exists f, files (r_fs r) target = Some f /\ f_mode f = mode0600.
+  Proof.
+    cbv zeta. destruct (run_post AsIs CmdWrite target tmp fs sched kill) as [b [w' [Hs [Hfs [_ Ho]]]]].
+    rewrite Hfs, Hs. intro E. apply status_of_exit0 in E. unfold fout, w0 in Ho; cbn [w_fs] in Ho.
+    destruct Ho as [[_ [_ H3]] | [_ [f0 [out [Hf0 [Hfmt [Hw Hb]]]]]]].
+    - destruct (H3 E) as [? [_ []]].
+    - eexists. split; [apply Hb; auto|]. reflexivity.
+  Qed.
+
+  (* T4: input that does not parse: only read calls on the target, nothing changes, never status 0 *)
+  Lemma only_reads target fs sched kill w' :
+    read_ext target (w0 fs sched kill) w' -> Forall (fun e => is_read_call target (fst e)) (rev (w_trace w')).
+  Proof.
+    intros [evs [He Hf]]. simpl in He. rewrite app_nil_r in He. rewrite He. now apply Forall_rev.
+  Qed.
+
+  Lemma unparsable_untouched v c target tmp fs sched kill f0 :
+    files fs target = Some f0 -> fmtall (f_data f0) = None ->
+    let r := run fmt1 parts join v c target tmp fs sched kill in
+    r_fs r = fs /\ Forall (fun e => is_read_call target (fst e)) (r_trace r) /\ r_status r <> Exit 0.
+  Proof.
+    intros Hf0 Hn. cbv zeta. destruct (run_post v c target tmp fs sched kill) as [b [w' [Hs [Hfs [Htr Ho]]]]].
+    rewrite Hfs, Hs, Htr. unfold fout in Ho. cbn [w0 w_fs] in Ho.
+    destruct Ho as [[H1 [H2 H3]] | [_ [f0' [out [Hf0' [Hfmt _]]]]]].
+    - repeat split; auto. { eapply only_reads; eauto. }
+      intro E. apply status_of_exit0 in E. destruct (H3 E) as [f0' [Hf0' Hc]].
+      rewrite Hf0 in Hf0'. inversion Hf0'; subst f0'.
+      destruct c; auto.
+      apply check_ok_parses in Hc. congruence.
+    - rewrite Hf0 in Hf0'. inversion Hf0'; subst f0'. congruence.
+  Qed.
+
+  (* T5: check mode never writes, and status 0 means formatted *)
+  Lemma check_no_write v target tmp fs sched kill :
+    let r := run fmt1 parts join v CmdCheck target tmp fs sched kill in
+    r_fs r = fs /\ Forall (fun e => is_read_call target (fst e)) (r_trace r) /\
+    (r_status r = Exit 0 -> exists f0, files fs target = Some f0 /\ checkok (f_data f0) = true).
+  Proof.
+    cbv zeta. destruct (run_post v CmdCheck target tmp fs sched kill) as [b [w' [Hs [Hfs [Htr Ho]]]]].
+    rewrite Hfs, Hs, Htr. unfold fout in Ho. cbn [w0 w_fs] in Ho.
+    destruct Ho as [[H1 [H2 H3]] | [Hc _]]; [|discriminate].
+    repeat split; auto. { eapply only_reads; eauto. }
+    intro E. apply status_of_exit0 in E. apply H3; auto.
+  Qed.
+End Formatter.
+
+(* ---------- fault-free runs ---------- *)
+Lemma read_file_nofault p fs k tr f :
+  files fs p = Some f ->
+  exists w', read_file p {| w_fs := fs; w_sched := []; w_left := 5 + k; w_trace := tr |} = Go (Some (f_data f)) w' /\
+             w_fs w' = fs.
+Proof.
+  intro Hf. unfold read_file, bind, syscall, ret_, file_len. simpl. rewrite Hf. simpl. rewrite Hf. simpl.
+  rewrite Hf. destruct (f_data f) as [|x l] eqn:Ed.
+  - simpl. eexists. split; reflexivity.
+  - cbn [skipn List.length firstn]. rewrite firstn_all.
+    cbn [read_loop app List.length]. unfold syscall. cbn [w_left w_sched w_fs hd tl fst snd sys_exec].
+    rewrite Hf, Ed. cbn [List.length skipn]. rewrite skipn_all.
+    simpl. eexists. split; reflexivity.
+Qed.
+
+Section FormatterNoFault.
+  Variable fmt1 : bytes -> option bytes.
+  Variable parts : bytes -> list bytes.
+  Variable join : bytes -> list bytes -> bytes.
+
+  (* T5': without faults, `fmt -c` exits 0 exactly when every part is formatted *)
+  Lemma check_truth_nofault v target tmp fs k f0 :
+    files fs target = Some f0 ->
+    r_status (run fmt1 parts join v CmdCheck target tmp fs [] (5 + k)) =
+    if check_ok fmt1 parts (f_data f0) then Exit 0 else Exit 1.
+  Proof.
+    intro Hf. unfold run, fmt_file, bind.
+    destruct (read_file_nofault target fs k [] f0 Hf) as [w' [-> _]].
+    unfold ret_. now destruct (check_ok fmt1 parts (f_data f0)).
+  Qed.
+End FormatterNoFault.
+
+(* for a plain .evy file: check_ok src  <->  format src = src *)
+Lemma evy_check_ok_iff fmt1 src :
+  check_ok fmt1 evy_parts src = true <-> fmt_all fmt1 evy_parts evy_join src = Some src.
+Proof.
+  unfold check_ok, fmt_all, evy_parts, part_ok. simpl.
+  destruct (fmt1 src) as [o|]; simpl.
+  - rewrite andb_true_r. rewrite str_eqb_eq. split; intro H; [now subst | now inversion H].
+  - split; discriminate.
+Qed.
